@@ -143,6 +143,19 @@ theorem delay_registry_correct (N : Nat) (hN : 1 ≤ N) (xs : List R) :
     have : k - N < xs.length := by omega
     simp [List.getElem?_eq_getElem this]
 
+omit [Div R] [LT R] [DecidableLT R] [BEq R] [Median.POrd R] [Classify.Cmp R] in
+/-- the specification's convolution of a prefix, as a convolution of the whole (zero-extended) signal -/
+theorem firAt_take (c xs : List R) (k : Nat) (hk : k < xs.length) :
+    Spec.firAt c (xs.take (k + 1)) = convL c (fun i => xs.getD i 0) k := by
+  simp only [Spec.firAt, List.length_take, Nat.min_eq_left (by omega : k + 1 ≤ xs.length), Nat.add_sub_cancel]
+  apply convL_congr
+  intro i hi
+  simp only [Spec.signal, List.getD]
+  rw [List.getElem?_take_of_lt (by omega)]
+  have hi' : i < xs.length := by omega
+  simp [List.getElem?_eq_getElem hi']
+
+
 end SignaloModel.Registry
 
 #print axioms SignaloModel.Registry.conv_registry_correct
